@@ -109,6 +109,12 @@ RULE = ("own legs: %d operation batteries (vectors, inplace_vector, strings in b
         "aligned legal addresses, alignof / sizeof / slot offset / stride / placement offset compared with the layout model, misaligned slots "
         "counted and (variant alsan) trapped by -fsanitize=alignment; aligned_storage_t<1..64> default alignment; san_canary: the sanitizer "
         "builds must abort on a deliberate misaligned load / constructor call / heap overflow; "
+        "sub-view battery (sub.cpp, builds -O1 checked / -O2 / ASan+UBSan without contract checks): span sub-views subspan<Offset, Count>() / "
+        "first<Count>() / last<Count>() and their run-time forms for EVERY N in 0..6 x Offset x Count (dynamic_extent included) on static- and "
+        "dynamic-extent parents over exact-size heap buffers, two element types, extent of the result type / size() / touched index range / "
+        "elements outside the parent compared with the model and with std::span; uninitialized_move / copy / fill into n raw slots (n in 0..6, 13) "
+        "with an element whose copy and move constructors throw at every slot t, per-slot construct / destroy events compared with the model and "
+        "the std algorithm; copy / move construction / assignment of static_vector / inplace_vector with a throwing element (op throwing); "
         "aggregated legs: the cases of the listed packages' generators re-run under the sanitizer variant the package declares (for the "
         "packages that declare none: the package's main harness built with ASan+UBSan by C02) "
         "(-fno-sanitize-recover / trap) and compared with the extracted model (a sanitizer report = `crash` = disagreement); "
